@@ -585,7 +585,8 @@ def work_item(pid, item, st: Stats):
             with f3_rule_disabled():
                 q08, _, _ = analyse(label, t0, share, do_cuts, Stats(), count=False)
             if not q08:
-                st.known_hit("F3", f"{M.show(t0)}: {probs[0][1]}")
+                st.known_hit("F3", f"{M.show(t0)}: {probs[0][1]}", key=(M.show(t0), bool(share)),
+                             case=term_case(label, t0, share, probs[0][0], probs[0][1], dict(probs[0][2] or {})))
                 return
     kind, why, detail = probs[0]
     st.violation(term_case(label, t0, share, kind, why, dict(detail or {}, all=[p[1] for p in probs[:5]])))
